@@ -549,7 +549,7 @@ Qed.
 Lemma loop_step_blank_lf s rest els ne lnb ci p n :
   at_ bs p (sp s ++ 10%N :: rest) ->
   pattern_loop bs (S n) (PState els ne lnb ci LineStart) p =
-  pattern_loop bs n (PState (PHText p (S (s + p)) s LineStart :: els) (S ne) lnb ci LineStart) (S (s + p)).
+  pattern_loop bs n (PState (PHText (s + p) (S (s + p)) 0 LineStart :: els) (S ne) lnb ci LineStart) (S (s + p)).
 Proof.
   intros H. cbn [pattern_loop]. rewrite bind_get_ptr.
   assert (Hlt : Nat.ltb p (length_ bs) = true).
@@ -642,9 +642,9 @@ Proof.
       rewrite (loop_step_blank_lf s _ els ne lnb ci p n H).
       assert (H1 : at_ bs (S (s + p)) (r ++ next)).
       { apply at_app in H. rewrite sp_length in H. apply at_cons in H. exact H. }
-      destruct (IH next (PHText p (S (s + p)) s LineStart :: els) (S ne) lnb ci _ n Hstop H1 ltac:(lia))
+      destruct (IH next (PHText (s + p) (S (s + p)) 0 LineStart :: els) (S ne) lnb ci _ n Hstop H1 ltac:(lia))
         as [extra [ne' E]].
-      exists (extra ++ [PHText p (S (s + p)) s LineStart]), ne'. rewrite E. f_equal.
+      exists (extra ++ [PHText (s + p) (S (s + p)) 0 LineStart]), ne'. rewrite E. f_equal.
       * rewrite <- app_assoc. reflexivity.
       * rewrite !app_length, sp_length. cbn [length lf]. lia.
     + destruct n as [|[|n]]; [lia | lia |]. cbn [crlf app] in H.
@@ -654,9 +654,9 @@ Proof.
       rewrite (loop_step_blank_lf 0 _ els ne lnb ci _ n H0).
       assert (H1 : at_ bs (S (0 + S (s + p))) (r ++ next)).
       { apply at_cons in H0. exact H0. }
-      destruct (IH next (PHText (S (s + p)) (S (0 + S (s + p))) 0 LineStart :: els) (S ne) lnb ci _ n Hstop H1 ltac:(lia))
+      destruct (IH next (PHText (0 + S (s + p)) (S (0 + S (s + p))) 0 LineStart :: els) (S ne) lnb ci _ n Hstop H1 ltac:(lia))
         as [extra [ne' E]].
-      exists (extra ++ [PHText (S (s + p)) (S (0 + S (s + p))) 0 LineStart]), ne'. rewrite E. f_equal.
+      exists (extra ++ [PHText (0 + S (s + p)) (S (0 + S (s + p))) 0 LineStart]), ne'. rewrite E. f_equal.
       * rewrite <- app_assoc. reflexivity.
       * rewrite !app_length, sp_length. cbn [length crlf]. lia.
 Qed.
